@@ -666,7 +666,7 @@ mod assignment {
         quote!(
             if ($(t.compare(t.symbol(val, ty), t.num(fixed_val))) != 0) {
                 throw new IllegalArgumentException(
-                    "Value " + $val + " invalid for field fixed to " + $fixed_val
+                    "Value " + ($val) + " invalid for field fixed to " + $fixed_val
                 );
             }
         )
